@@ -207,7 +207,14 @@ func genWindow(t *rapid.T, l Layout, now int64, allowBad bool) Window {
 	k := len(l.Archives)
 	var id int
 	if allowBad {
-		id = rapid.SampledFrom([]int{-1, -1, 0, 0, 1, 2, 3, k - 1, k - 1, k, k + 1, -2}).Draw(t, "id")
+		switch r := rapid.IntRange(0, 19).Draw(t, "idKind"); {
+		case r < 3:
+			id = rapid.SampledFrom([]int{k, k + 1, -2, -3, k + 100}).Draw(t, "badID")
+		case r < 9:
+			id = -1
+		default:
+			id = rapid.IntRange(0, k-1).Draw(t, "id")
+		}
 	} else {
 		id = rapid.IntRange(0, k-1).Draw(t, "id")
 	}
